@@ -966,6 +966,8 @@ def compile_comprehension(compiler, expr, root, parts, final):
             or (elt is not None and elt.stmts)
             or (key is not None and key.stmts)
             or (not PY3_15 and ends_with_unpack)
+            or parts[0].tag == "if"
+              # A Python comprehension can't start with an `if`.
             or any(
                 p.tag == "do"
                 or (
